@@ -153,7 +153,8 @@ impl<'a> TryFrom<&'a str> for Header<'a> {
             None => input.len(),
         };
 
-        parse_header(&input[..length])
+        // The cut falls inside a multi-byte character when the byte after the CR starts one.
+        parse_header(input.get(..length).ok_or(ParseError::InvalidSuffix)?)
     }
 }
 
